@@ -42,15 +42,18 @@ CLAIMED.update({
               "all-NaN point, array / inds / scalar / GeoSeries forms, plus seeded random shapes; on-ring points compared for form agreement only.",
               STD_NOTE + "Proved exact (iff) for point, multipoint, line, multiline; for polygons: the edge rule (closed form and geometric reading), "
               "antisymmetry under reversal, zero outside the bounding box, constancy along segments and on boxes that miss the ring, jump by the "
-              "edge's direction across one edge, +-1 strictly inside a triangle, and the shell-minus-holes decision logic. That these local facts "
-              "determine the winding number of a simple ring (every point can be joined to infinity crossing edges transversally: Jordan) is a "
-              "paper argument, so the polygon clause is partial (DESIGN I.2, I.7).",
+              "edge's direction across one edge, +-1 strictly inside / 0 strictly outside a triangle, 0 everywhere for a degenerate triangle, the fan "
+              "decomposition of every ring (unconditional) and hence, off the boundaries of its fan triangles, winding number = signed number of fan "
+              "triangles covering the point, and the shell-minus-holes decision logic. That for a simple ring this signed cover is +-1 exactly on the "
+              "bounded component (polygonal Jordan theorem) is not proved, so the polygon clause is partial (DESIGN I.2, I.7).",
               "Lean 4 proof about the winding-number model + correspondence with exact oracle", "I.2 C02, II §3 C02"),
     "C03": _c("Lean page-tree model of the Hilbert R-tree (Model/RTree.lean) proved for every permutation of the rows (so for every p) and every "
               "page size; correspondence: exhaustive d=1 (n<=3, endpoints 0..3 or NaN, every page size and query), small exhaustive d=2, seeded "
               "trees up to n=2000 with ties, NaN rows, pickled and re-queried instances; results collected before comparison.",
               STD_NOTE + "The array encoding is covered too: index arithmetic (closed forms of _start_index / _stop_index, leaf test) and the stack traversal "
-              "over bounds_tree are proved equal to the recursive query; the ties compare the real index functions and the real bounds_tree rows with the model.",
+              "over bounds_tree are proved equal to the recursive query, and the coded bottom-up pass (page loop, layer loops) is proved to fill bounds_tree "
+              "with the sub-tree boxes; the ties compare the real index functions and the real bounds_tree rows with the recursive description and with "
+              "the coded pass.",
               "Lean 4 proof by induction over the page tree + correspondence", "I.2 C03, II §3 C03"),
     "C13": _c("Lean model of the NaN-aware bounds scans (Model/Bounds.lean) with the theorems of Props/C13.lean; correspondence for all kinds x "
               "subtypes, missing / empty / non-finite coordinates, derived arrays with non-zero offsets, GeoSeries / Dask / spatial-index wrappers.",
@@ -83,11 +86,13 @@ CLAIMED.update({
     "C05": _c("Lean model of the spatial join (pair table from the exact predicate, join shape per how) with the theorems of Props/C05.lean; "
               "correspondence compares complete result rows (columns, suffixes, index labels) as multisets for left point frames with duplicates / "
               "missing points / four index kinds and right frames of every kind incl. missing geometries and empty frames.",
-              STD_NOTE + "pandas.merge is modelled relationally (trusted base).", "Lean 4 proof about the join model + correspondence", "I.2 C05, II §3 C05"),
+              STD_NOTE + "The index prefilter (candidates by box overlap) is proved to lose no pair (rings closed). pandas.merge is modelled relationally "
+              "(trusted base).", "Lean 4 proof about the join model + correspondence", "I.2 C05, II §3 C05"),
     "C06": _c("Lean partition model (partition bounds, NaN-ignoring total bounds, cx over kept partitions) with the theorems of Props/C06.lean; "
               "correspondence: every Dask operation against the same operation on the concatenation of the partitions for seven provenances, plus "
-              "partition_bounds / cx against the Lean model.",
-              STD_NOTE + "Dask graph construction/execution, meta inference, from_delayed are exercised, not modelled.",
+              "partition_bounds / cx / sjoin rows and per-partition sjoin candidates against the Lean model.",
+              STD_NOTE + "The Dask sjoin (per-partition join with pruned right rows) is proved equal to the join of the concatenation (left: row for row; "
+              "inner: as a multiset). Dask graph construction/execution, meta inference, from_delayed are exercised, not modelled.",
               "Lean 4 proof about the partition model + Dask-vs-pandas correspondence", "I.2 C06, II §3 C06"),
     "C08": _c("Lean exact-arithmetic reference for hilbert_distance (cell of the bbox centre, clip, degenerate extents) with the theorems of "
               "Props/C08.lean; equality with the reference where the scaling arithmetic is exact (power-of-two extents, also far from the origin), "
